@@ -20,7 +20,7 @@ from simkit.core import HarnessError
 
 PROP = "C35"
 LEVEL = "exploration"
-TIERS = {"quick": dict(runs=480, wall=900, chunk=6), "thorough": dict(runs=30000, wall=5400, chunk=12)}
+TIERS = {"quick": dict(runs=480, wall=1400, chunk=6), "thorough": dict(runs=30000, wall=5400, chunk=12)}
 CASES_PER_RUN = 60
 TIME_UNIT = "steps (sys.monitoring LINE events in androguard/ and apkInspector/ code + stream operations)"
 RULE = ("one evaluation = one parse of a faulted store (1-3 seeded storage faults on a valid DEX / AXML / ARSC / APK file) "
